@@ -13,17 +13,17 @@ static __thread int my_id;
 static char arena[MAXT][ARENA] __attribute__((aligned(64))); static size_t apos[MAXT];
 #include "e3_scripts.h"
 static pthread_barrier_t bar; static int ITER = 300, NTHREADS = 8;
-static uint64_t first_tr[5][MAXT]; static const int HS[5] = { 1, 2, 3, 4, 7 }; static int mismatch;
+static uint64_t first_tr[6][MAXT]; static const int HS[6] = { 1, 2, 3, 4, 7, 9 }; static int mismatch;
 static void *worker(void *arg) {
     my_id = (int)(intptr_t)arg;
     for (int it = 0; it < ITER; it++) {
         pthread_barrier_wait(&bar);
         apos[my_id] = 0; tr[my_id] = 0;
         /* script ids: harness alternates; the script of thread id%NT of that harness */
-        int hi = it % 5, h = HS[hi]; int nt = h == 3 ? 3 : 2;
+        int hi = it % 6, h = HS[hi]; int nt = h == 3 ? 3 : 2;
         script_h(h, my_id % nt, my_id);
         uint64_t v = tr[my_id];
-        if (it < 5) first_tr[hi][my_id] = v; else if (first_tr[hi][my_id] != v) __atomic_store_n(&mismatch, 1, __ATOMIC_RELAXED);
+        if (it < 6) first_tr[hi][my_id] = v; else if (first_tr[hi][my_id] != v) __atomic_store_n(&mismatch, 1, __ATOMIC_RELAXED);
     }
     return NULL;
 }
@@ -41,7 +41,7 @@ int main(int argc, char **argv) {
     struct res *r = calloc(1, sizeof *r);
     r->cases = (uint64_t)ITER * (uint64_t)NTHREADS; r->calls = r->cases * 5; r->validated = r->cases;
     if (mismatch) res_viol(r, "c20:free-run-transcript", "", "a thread's transcript changed between iterations of the free-running pass");
-    res_sample(r, "%d threads x %d iterations of the H1/H2/H3/H4/H7 bodies under ThreadSanitizer (free running, barrier per iteration)", NTHREADS, ITER);
+    res_sample(r, "%d threads x %d iterations of the H1/H2/H3/H4/H7/H9 bodies under ThreadSanitizer (free running, barrier per iteration)", NTHREADS, ITER);
     static const char *CLS[] = { NULL };
     out_begin(); out_part("free-running ThreadSanitizer pass (not an exploration; supplementary race visibility)", r, CLS, "a ThreadSanitizer report makes the process exit with status 66"); out_end();
     return 0;
